@@ -48,7 +48,9 @@ class CTMCScale(CallableModel):
         return log_like
 
     def _sample_shape(self) -> torch.Size:
-        return self.x.tensor.shape[:-1]
+        return torch.broadcast_shapes(
+            self.x.tensor.shape[:-1], self.tree_model.sample_shape
+        )
 
     def to(self, *args, **kwargs) -> None:
         super().to(*args, **kwargs)
